@@ -175,6 +175,7 @@ func (p c09) Run(c *core.Ctx, idx int) {
 		storeName = gm.String()
 	}
 	c.Count("store_" + storeName)
+	defer func() { reportHooks(c, target) }()
 	nops := 2 + r.Intn(11)
 	var history []string
 	for op := 0; op < nops+2; op++ {
